@@ -3,8 +3,10 @@ package c16
 import (
 	"bytes"
 	"fmt"
+	"math"
 	"math/rand"
 	"os"
+	"runtime/debug"
 	"sort"
 	"strconv"
 	"strings"
@@ -27,12 +29,14 @@ func (area) Name() string { return "ingest" }
 
 // Stable keys of the recorded findings (known_findings.json).
 const (
-	keyDupProto  = "dup-key-survivor-depends-on-tag-order:proto"
-	keyDupFlat   = "dup-key-survivor-depends-on-tag-order:flat"
-	keyDupInflux = "dup-key-survivor-depends-on-tag-order:influx"
-	keyStaleMark = "pooled-batch-stale-out-of-range-mark-drops-in-window-row"
-	keyFlatNs    = "flat-row-without-namespace-ignores-request-namespace"
-	keyInfluxInf = "influx-inf-spelled-field-dropped-rest-of-row-stored"
+	keyDupProto          = "dup-key-survivor-depends-on-tag-order:proto"
+	keyDupFlat           = "dup-key-survivor-depends-on-tag-order:flat"
+	keyDupInflux         = "dup-key-survivor-depends-on-tag-order:influx"
+	keyStaleMark         = "pooled-batch-stale-out-of-range-mark-drops-in-window-row"
+	keyFlatNs            = "flat-row-without-namespace-ignores-request-namespace"
+	keyInfluxInf         = "influx-inf-spelled-field-dropped-rest-of-row-stored"
+	keyInfluxMaxTags     = "influx-ignores-max-tags-per-metric"
+	keyInfluxSuffixPanic = "influx-field-value-of-a-lone-int-suffix-panics-the-request"
 )
 
 func (area) Run(c *core.Ctx) error {
@@ -45,6 +49,9 @@ func (area) Run(c *core.Ctx) error {
 		func() {
 			defer func() {
 				if p := recover(); p != nil {
+					if os.Getenv("VERIF_C16_DEBUG") != "" {
+						fmt.Fprintf(os.Stderr, "%s\n", debug.Stack())
+					}
 					c.Fail("panic", fmt.Sprintf("case %d panicked: %v", i, p))
 				}
 			}()
@@ -56,12 +63,18 @@ func (area) Run(c *core.Ctx) error {
 			case i == 2:
 				witnessFlatNamespace(c)
 				witnessInfluxInf(c)
+				witnessInfluxMaxTags(c)
+				witnessInfluxSuffixPanic(c)
 			case i%4 == 0:
 				caseBatch(c, r)
 			case i%8 == 3:
 				caseEvict(c, r)
 			case i%8 == 5:
 				caseFlatStream(c, r)
+			case i%16 == 9:
+				caseInfluxFields(c, r)
+			case i%16 == 1:
+				casePooledHistory(c, r)
 			case i%8 == 7:
 				caseSingle(c, r, 120) // malformed stream
 			default:
@@ -272,6 +285,7 @@ func caseSingle(c *core.Ctx, r *rand.Rand, bad int) {
 		if k == "nan-field" || k == "inf-field" {
 			checkInfluxNonFinite(c, r, cf, m)
 		}
+		checkRejectionAgreement(c, r, cf, m, k)
 		return
 	}
 	o, mism := observe(&row)
@@ -496,6 +510,112 @@ func checkInfluxNonFinite(c *core.Ctx, r *rand.Rand, cf *cfg, m *lmetric) {
 		key = keyInfluxInf
 	}
 	c.Fail(key, fmt.Sprintf("line %q has a non-finite field (%s): the protobuf path rejects the metric, influx stores a row with %d of its %d fields", line, strings.Join(used, ","), stored, len(m.fields)))
+}
+
+// checkRejectionAgreement: a metric the protobuf path rejects is an invalid metric in every form: the
+// raw flat row and the influx line (where those forms can carry it) must be rejected as a whole too.
+// Not judged — the two validations differ by design of lindb/common's RowBuilder, recorded in the
+// design note: a histogram with exactly two buckets (protobuf wants more than two, RowBuilder at
+// least two) and a histogram whose values and bounds differ in length (the flat decoder reads the
+// common prefix).
+func checkRejectionAgreement(c *core.Ctx, r *rand.Rand, cf *cfg, m *lmetric, kind string) {
+	tagKind := kind == "tag-key-too-long" || kind == "tag-value-too-long"
+	if tagKind {
+		// the flat and influx paths do not length-check the request's ENRICHED tags (protobuf does): observation, not judged
+		for _, t := range cf.enriched {
+			if cf.lim.maxTagKey > 0 && len(t.k) > cf.lim.maxTagKey || cf.lim.maxTagVal > 0 && len(t.v) > cf.lim.maxTagVal {
+				c.Branch("reject-agreement/not-judged-enriched-tag-over-limit")
+				return
+			}
+		}
+	}
+	if m.flatExpressible() {
+		switch {
+		case m.cf != nil && len(m.cf.values) != len(m.cf.bounds):
+			c.Branch("reject-agreement/flat-not-judged-length-mismatched-histogram")
+		case m.cf != nil && len(m.cf.values) == 2:
+			c.Branch("reject-agreement/flat-not-judged-two-bucket-histogram")
+		default:
+			b, err := parseFlat(cf, []*lmetric{m})
+			c.Branch("reject-agreement/flat-checked")
+			if err == nil && b != nil && b.Len() > 0 {
+				c.Fail("flat-accepts-what-proto-rejects:"+kind, fmt.Sprintf("the protobuf path rejects %s (%s) under limits %+v, the same metric as a flat row is stored", m.enc(), kind, cf.lim))
+			}
+		}
+	}
+	line, ok := m.toInfluxSp(func(v fval) string {
+		return nonFiniteSpellings[v.kind][r.Intn(len(nonFiniteSpellings[v.kind]))]
+	})
+	if !ok || kind == "nan-field" || kind == "inf-field" { // non-finite fields: checkInfluxNonFinite
+		return
+	}
+	if tagKind || kind == "too-many-tags" {
+		// the line parser collects tags into a map (recorded duplicate-key finding): with a repeated key it
+		// sees fewer / other tags than the protobuf path validates
+		seen := map[string]bool{}
+		for _, t := range m.tags {
+			if seen[t.k] {
+				c.Branch("reject-agreement/influx-not-judged-repeated-key")
+				return
+			}
+			seen[t.k] = true
+		}
+	}
+	ns := m.ns
+	if cf.reqNs != "" {
+		ns = cf.reqNs
+	}
+	b, _ := parseInflux(cf, ns, []string{line})
+	c.Branch("reject-agreement/influx-checked")
+	if b != nil && b.Len() > 0 {
+		key := "influx-accepts-what-proto-rejects:" + kind
+		if kind == "too-many-tags" {
+			key = keyInfluxMaxTags
+		}
+		c.Fail(key, fmt.Sprintf("the protobuf path rejects the metric (%s) under limits %+v with %d enriched tags, its line-protocol form %q is stored", kind, cf.lim, len(cf.enriched), line))
+	}
+}
+
+// witnessInfluxSuffixPanic: a request of two lines, the second has a field whose value is the lone
+// integer suffix `i`.
+func witnessInfluxSuffixPanic(c *core.Ctx) {
+	cf := &cfg{lim: limits{isDefault: true}}
+	lines := []string{"cpu,h=1 ok_last=1 1700000000000", "cpu,h=2 a_last=i 1700000000000"}
+	rows, panicked := -1, false
+	func() {
+		defer func() {
+			if recover() != nil {
+				panicked = true
+			}
+		}()
+		if b, _ := parseInflux(cf, "ns", lines); b != nil {
+			rows = b.Len()
+		}
+	}()
+	if panicked || rows != 1 {
+		c.Fail(keyInfluxSuffixPanic, fmt.Sprintf("request %q: influx.Parse panicked=%v rows=%d — the invalid second line takes the valid first line of the batch down with it", lines, panicked, rows))
+	}
+}
+
+// witnessInfluxMaxTags: three distinct tags under max-tags-per-metric = 2.
+func witnessInfluxMaxTags(c *core.Ctx) {
+	cf := &cfg{lim: limits{maxName: 256, maxField: 128, maxTagKey: 128, maxTagVal: 1024, maxTags: 2, maxFields: 256}}
+	m := &lmetric{name: "cpu", ns: "ns", ts: 1700000000000, tags: []*ltag{{"a", "1"}, {"b", "2"}, {"c", "3"}}, fields: []*lfield{{name: "f_last", typ: 1, val: num(1)}}}
+	c.Op(cf.enc(), "ok")
+	var row metric.BrokerRow
+	err, _, _ := convertProto(cf, m, &row)
+	k := "accepted"
+	if err != nil {
+		k = "err " + errKind(err)
+	}
+	c.Op("conv "+m.enc(), k)
+	if fb, err := parseFlat(cf, []*lmetric{m}); err == nil && fb != nil && fb.Len() > 0 {
+		c.Fail("flat-accepts-what-proto-rejects:too-many-tags", "flat stores a row with 3 tags under max-tags-per-metric = 2")
+	}
+	line, _ := m.toInflux()
+	if b, _ := parseInflux(cf, "ns", []string{line}); b != nil && b.Len() > 0 {
+		c.Fail(keyInfluxMaxTags, fmt.Sprintf("max-tags-per-metric = 2: the protobuf and flat paths reject the metric with tags a,b,c (%s), its line-protocol form %q is stored", k, line))
+	}
 }
 
 func sent(cf *cfg, m *lmetric) []ltag {
@@ -859,6 +979,7 @@ func caseBatch(c *core.Ctx, r *rand.Rand) {
 	cv, release := metric.NewBrokerRowProtoConverter([]byte(cf.reqNs), cf.realEnriched(), cf.lim.real())
 	defer release(cv)
 	var b *metric.BrokerBatchRows
+	pooledMarked := false
 	if r.Intn(3) == 0 {
 		// the batch object of an earlier, LARGER request comes back from the pool (channelManager.Write
 		// releases it): its slots beyond this request's rows still hold the earlier request's rows
@@ -870,6 +991,10 @@ func caseBatch(c *core.Ctx, r *rand.Rand) {
 		}
 		sit := old.NewShardGroupIterator(int32(numShards))
 		for sit.HasRowsForNextShard() {
+		}
+		if r.Intn(2) == 0 {
+			old.EvictOutOfTimeRange(1, 1) // every row of the earlier request ends up marked
+			pooledMarked = true
 		}
 		old.Release()
 		b = metric.NewBrokerBatchRows()
@@ -940,6 +1065,15 @@ func caseBatch(c *core.Ctx, r *rand.Rand) {
 	}
 	if len(rows) == 0 {
 		return
+	}
+	// whatever the pooled object held: the rows of this request are exactly the accepted ones, unmarked
+	if b.Len() != len(rows) {
+		c.Fail("batch-length-not-accepted-rows", fmt.Sprintf("%d metrics accepted, batch.Len() = %d", len(rows), b.Len()))
+	}
+	for k := range b.Rows() {
+		if b.Rows()[k].IsOutOfTimeRange {
+			c.Fail("stale-mark-on-appended-row", fmt.Sprintf("row %d of the request carries IsOutOfTimeRange before any eviction (pooled batch, earlier rows marked: %v)", k, pooledMarked))
+		}
 	}
 	iv := ik.intervals[0]
 	for _, x := range ik.intervals {
@@ -1139,6 +1273,219 @@ func caseBatch(c *core.Ctx, r *rand.Rand) {
 	if anyAbsent {
 		c.Branch("route/rows-for-absent-shard")
 	}
+}
+
+// casePooledHistory: two requests on ONE pooled batch object, as channelManager.Write runs them.
+// Request A has rows outside the write window in the middle of the batch; it is evicted, sharded and
+// written by the real databaseChannel.Write and released to the pool. Request B (at least as many rows,
+// similar sizes) takes the same object back. Whatever A left behind, every row of B must come out of
+// the batch, and of the shard/family iterators, with exactly the payload that was appended, once.
+func casePooledHistory(c *core.Ctx, r *rand.Rand) {
+	cf := &cfg{lim: limits{isDefault: true}}
+	now := fasttime.UnixMilliseconds()
+	numShards := []int{1, 2, 4, 7}[r.Intn(4)]
+	na := 2 + r.Intn(8)
+	a := metric.NewBrokerBatchRows()
+	mk := func(prefix string, i int, ts int64) *lmetric {
+		m := simpleMetric(i, ts)
+		m.name = prefix + strconv.Itoa(i)
+		m.tags = append(m.tags, &ltag{"host", genStr(r, 3+r.Intn(3))})
+		return m
+	}
+	nOld := 0
+	for i := 0; i < na; i++ {
+		ts := now - int64(r.Intn(1000))
+		if i < na-1 && r.Intn(3) == 0 || i == 0 && na > 1 && nOld == 0 && r.Intn(2) == 0 {
+			ts = now - 5*3600*1000 // outside a 1h window
+			nOld++
+		}
+		m := mk("a", i, ts)
+		_ = a.TryAppend(func(row *metric.BrokerRow) error { e, _, _ := convertProto(cf, m, row); return e })
+	}
+	present := make([]int, numShards)
+	for i := range present {
+		present[i] = i
+	}
+	if _, err := replica.VerifC16Write([]timeutil.Interval{10000}, int32(numShards), present, 3600*1000, 3600*1000, a); err != nil {
+		c.Fail("channel-write-error", err.Error())
+	}
+	a.Release()
+	b := metric.NewBrokerBatchRows()
+	if b == a {
+		c.Branch("pooled-history/same-object")
+	}
+	if nOld > 0 {
+		c.Branch("pooled-history/request-A-had-evicted-rows")
+	}
+	nb := na + r.Intn(4)
+	base := int64(1700000000000)
+	c.Op(cf.enc(), "ok")
+	c.Op("newbatch -", "ok")
+	var ms []*lmetric
+	var wantPayload [][]byte
+	for i := 0; i < nb; i++ {
+		m := mk("r", i, base+int64(r.Intn(3))*3600*1000+int64(r.Intn(1000)))
+		ms = append(ms, m)
+		if err := b.TryAppend(func(row *metric.BrokerRow) error { e, _, _ := convertProto(cf, m, row); return e }); err != nil {
+			panic(err)
+		}
+		var alone metric.BrokerRow
+		if e, _, _ := convertProto(cf, m, &alone); e != nil {
+			panic(e)
+		}
+		var buf bytes.Buffer
+		_, _ = alone.WriteTo(&buf)
+		wantPayload = append(wantPayload, buf.Bytes())
+	}
+	// after ALL appends: what does each slot hold?
+	for i := range b.Rows() {
+		var buf bytes.Buffer
+		_, _ = b.Rows()[i].WriteTo(&buf)
+		if !bytes.Equal(buf.Bytes(), wantPayload[i]) {
+			fm := b.Rows()[i].Metric()
+			c.Fail("row-payload-differs-from-appended", fmt.Sprintf("request B (%d rows) on the pooled batch of request A (%d rows, %d evicted): slot %d was appended as %s and now reads as metric %q (%d vs %d bytes)", nb, na, nOld, i, ms[i].name, fm.Name(), buf.Len(), len(wantPayload[i])))
+		}
+		o, mism := observe(&b.Rows()[i])
+		if o == nil {
+			c.Op("add "+ms[i].enc(), "unreadable")
+			c.Fail("row-unreadable", mism)
+			continue
+		}
+		c.Op("add "+ms[i].enc(), o.line(ms[i].ts, 0, 0))
+	}
+	c.NonTrivial()
+	iv := timeutil.Interval(10000)
+	if h := handedOut(b, numShards, iv); h != b.Len() {
+		c.Fail("rows-not-of-this-batch-handed-out", fmt.Sprintf("request B has %d rows, the shard/family iterators hand out %d", b.Len(), h))
+		return
+	}
+	seen := map[string]int{}
+	var parts []string
+	it := b.NewShardGroupIterator(int32(numShards))
+	for it.HasRowsForNextShard() {
+		shardIdx, fit := it.FamilyRowsForNextShard(iv)
+		for fit.HasNextFamily() {
+			ft, rs := fit.NextFamily()
+			var ids []int
+			for k := range rs {
+				fm := rs[k].Metric()
+				nm := string(fm.Name())
+				seen[nm]++
+				if id, err := strconv.Atoi(strings.TrimPrefix(nm, "r")); err == nil {
+					ids = append(ids, id)
+				}
+			}
+			sort.Ints(ids)
+			sl := make([]string, len(ids))
+			for k, id := range ids {
+				sl[k] = strconv.Itoa(id)
+			}
+			parts = append(parts, fmt.Sprintf("%d:%d:%s:%s", shardIdx, ft, strings.Join(sl, ","), strings.Join(sl, ",")))
+		}
+	}
+	for _, m := range ms {
+		if seen[m.name] != 1 {
+			c.Fail("routing-loses-or-duplicates-rows", fmt.Sprintf("request B on the pooled batch of request A (%d rows, %d evicted): row %s comes out of the shard/family iterators %d times", na, nOld, m.name, seen[m.name]))
+		}
+	}
+	c.Op(fmt.Sprintf("route %d day", numShards), "groups "+strings.Join(parts, " "))
+}
+
+var influxKeyPool = []string{"a_last", "b_first", "c_sum", "d", "e1", "HistogramX_last", "__bucket_9_sum", "x.y_last", "поле_sum", "sum", "last", "first", "z_last_x"}
+var influxTokenPool = []string{"1", "-7", "42", "0", "3i", "-4I", "5u", "9U", "1.0", "1e2", "-0", "2E1", "t", "T", "f", "F", "true", "True", "TRUE", "false", "False", "FALSE",
+	"tt", "xf", "Tf", "yF", "tRUE", "nan", "NaN", "NAN", "Inf", "inf", "INF", "-inf", "+Inf", "-Inf", "Infinity", "-Infinity", "+infinity", "INFINITY", "abc", "\"s\"", "1x", "0x10",
+	"i", "u", "12t", "1_000", "99999999999999999999i", "1e999", "infi", "nani", ".", "+", "1.", "7I", "-", "0x1p4", "1i2"}
+
+// caseInfluxFields: the field section of an influx line token by token — classification by the shape
+// of the literal (field / dropped bad field / line-invalidating field), typing by key suffix, the
+// drop-and-continue loop and RowBuilder's per-field checks — against the Lean model of parseField /
+// parseFields / AddSimpleField, with strconv's results supplied as the model's parameter.
+func caseInfluxFields(c *core.Ctx, r *rand.Rand) {
+	cf := &cfg{lim: limits{isDefault: true, maxName: 256, maxField: 128, maxTagKey: 128, maxTagVal: 1024, maxTags: 32, maxFields: 256}}
+	if r.Intn(4) == 0 {
+		cf.lim = limits{maxName: 256, maxField: []int{0, 6, 128}[r.Intn(3)], maxTagKey: 128, maxTagVal: 1024, maxTags: 32, maxFields: []int{0, 1, 2, 256}[r.Intn(4)]}
+	}
+	n := 1 + r.Intn(5)
+	var parts, ops []string
+	allSupported := true
+	for i := 0; i < n; i++ {
+		k := pick(r, influxKeyPool)
+		v := pick(r, influxTokenPool)
+		pi, pf := "-", "-"
+		tail := v[len(v)-1]
+		if strings.IndexByte("iIuU", tail) >= 0 {
+			if x, err := strconv.ParseInt(v[:len(v)-1], 10, 64); err == nil {
+				pi = strconv.FormatInt(x, 10)
+			}
+		}
+		fl, ferr := strconv.ParseFloat(v, 64)
+		if ferr == nil {
+			pf = showFloat(fl)
+			if strings.HasPrefix(pf, "float(") {
+				continue // not exactly an integer: outside the value abstraction
+			}
+			// the contract assumed of strconv (StrconvSpec)
+			if strings.IndexByte("iIuUtT", tail) >= 0 || strings.IndexByte("fF", tail) >= 0 && !math.IsInf(fl, 0) {
+				c.Fail("strconv-contract", fmt.Sprintf("ParseFloat(%q) = %v", v, fl))
+			}
+		}
+		isBool := v == "t" || v == "T" || v == "f" || v == "F" || v == "true" || v == "True" || v == "TRUE" || v == "false" || v == "False" || v == "FALSE"
+		if !(isBool || pi != "-" || ferr == nil) {
+			allSupported = false
+		}
+		parts = append(parts, k+"="+v)
+		ops = append(ops, fmt.Sprintf("%s:%s:%s:%s", hx(k), hx(v), pi, pf))
+	}
+	if len(parts) == 0 {
+		return
+	}
+	line := "m,t=1 " + strings.Join(parts, ",") + " 1700000000000"
+	var b *metric.BrokerBatchRows
+	panicked := func() (p bool) {
+		defer func() {
+			if recover() != nil {
+				p = true
+			}
+		}()
+		b, _ = parseInflux(cf, "ns", []string{line})
+		return false
+	}()
+	if panicked {
+		lone := false
+		for _, p := range parts {
+			v := p[strings.IndexByte(p, '=')+1:]
+			if v == "i" || v == "I" || v == "u" || v == "U" {
+				lone = true
+			}
+		}
+		if lone {
+			c.Fail(keyInfluxSuffixPanic, fmt.Sprintf("influx.Parse panics on line %q", line)) // recorded finding, see witnessInfluxSuffixPanic
+		} else {
+			c.Fail("panic", fmt.Sprintf("influx.Parse panics on line %q", line))
+		}
+		return
+	}
+	out := "rejected"
+	stored := 0
+	if b != nil && b.Len() == 1 {
+		o, mism := observe(&b.Rows()[0])
+		if o == nil {
+			c.Fail("row-unreadable", "influx fields: "+mism)
+			return
+		}
+		stored = len(o.fshow)
+		out = "stored " + strings.Join(o.fshow, ",")
+	}
+	c.Op(fmt.Sprintf("ifields %d %d | %s", cf.lim.maxFields, cf.lim.maxField, strings.Join(ops, " ")), out)
+	c.NonTrivial()
+	// the statement itself: with supported literals only, the line is rejected or no token is lost
+	if allSupported && out != "rejected" && stored < len(parts) {
+		c.Fail("influx-supported-field-dropped", fmt.Sprintf("line %q: every field token is a boolean / integer / float literal, %d tokens, %d fields stored", line, len(parts), stored))
+	}
+	if allSupported {
+		c.Branch("influx-fields/all-supported")
+	}
+	c.Branch("influx-fields/" + strings.SplitN(out, " ", 2)[0])
 }
 
 // handedOut counts the rows the shard/family iterators hand out, without reading any of them.
